@@ -82,6 +82,13 @@ checks.update({
    note="Mixed presentations are don't-care; bcrypt cost 4."),
 })
 
+checks.update({
+ "C13": dict(level="exploration", engine="ENUM", ref="DESIGN.md §5 C13",
+   technique="exhaustive enumeration of five product groups (registration x request) against the real authorization endpoint, one-sided acceptance conditions; issued codes carried to the token endpoint",
+   text="G1 response types (8 registrations x 4 grant sets x public x every ordered list of <=3 tokens incl. duplicates/unknown/empty x openid), G2 response modes, G3 state/nonce lengths around the threshold for two entropy settings, G4 redirect_uri presence x openid x flows x grant sets, G5 request objects (14 variants: registered/other/unknown keys, RS/ES/PS/HS/none, tampered, request_uri registered/unregistered/unfetchable/both x 6 registered algorithms): an accepted request satisfies every condition of the statement; access and ID tokens never appear in the query; state is echoed on every redirect; a client without authorization_code never redeems a code; request-object parameters are honoured only for registered key+algorithm.",
+   note="Cross terms between groups are not covered. Don't-care: hybrid code+id_token ID token without implicit grant; unsigned request object when no algorithm is registered."),
+})
+
 # properties not (yet) claimed: reason
 not_applicable = {
 }
@@ -102,7 +109,7 @@ man = {
  "engines": [
   {"name": "HIST", "path": "h/fam.go", "serves_properties": ["C01", "C04", "C08", "C09"], "kind_free_text": "explicit-state breadth-first search over API histories of the real provider, lock-step reference model, worker subprocesses, global dedup on canonical store dump"},
   {"name": "SEQ", "path": "h/c03.go", "serves_properties": ["C03", "C16", "C17"], "kind_free_text": "exhaustive bounded enumeration of operation sequences on the real provider"},
-  {"name": "ENUM", "path": "h/c02.go h/c05.go h/c06.go h/c07.go h/c10.go h/c11.go h/c12.go", "serves_properties": ["C02", "C05", "C06", "C07", "C10", "C11", "C12"], "kind_free_text": "exhaustive enumeration of finite input/configuration/history-position products, each case executed on a fresh real provider and judged by an independent reference predicate"},
+  {"name": "ENUM", "path": "h/c02.go h/c05.go h/c06.go h/c07.go h/c10.go h/c11.go h/c12.go h/c13.go", "serves_properties": ["C02", "C05", "C06", "C07", "C10", "C11", "C12", "C13"], "kind_free_text": "exhaustive enumeration of finite input/configuration/history-position products, each case executed on a fresh real provider and judged by an independent reference predicate"},
  ],
  "checks": [],
  "notes": "All checks rebuild the instrumented harness from /repo's working tree (./verif). Violations are re-executed 5x from their artefact before being reported; known findings live in /verif/known_findings.json.",
